@@ -99,8 +99,9 @@ theorem nl_iff (c : Char) : (c.utf8Size = 1 ∧ c.toNat = 10) ↔ c = '\n' := by
 (`p`, `B`, `cnt`, `s`: the ghost values of the buffer invariant). -/
 structure Rel (S : List UInt8) (n : Nat) (i : Input) (st : Spec.State) (p B cnt s : Nat) : Prop where
   inv : Inv S n i p B cnt s
-  tail : st.tail = []
-  src : S = Spec.encode st.flushed ++ (Spec.encode st.pending ++ Spec.encode st.rest)
+  /-- the bytes after the last well-formed rune: none, or bytes on which the decoder reports an invalid sequence -/
+  tail : st.tail = [] ∨ ∃ k, decodeRune st.tail = .invalid k
+  src : S = Spec.encode st.flushed ++ (Spec.encode st.pending ++ (Spec.encode st.rest ++ st.tail))
   lex : LexOK n i p B s (Spec.encode st.flushed).length
   pos : p = (Spec.encode st.flushed).length + (Spec.encode st.pending).length
   sizes : i.runeSizes = (st.pending.map Char.utf8Size).reverse
@@ -109,32 +110,62 @@ structure Rel (S : List UInt8) (n : Nat) (i : Input) (st : Spec.State) (p B cnt 
   column : i.column = ((Spec.advance (1, 1) st.flushed).2 : Nat)
   cols : (i.nextColumn, i.lastColumns) = track i.column st.pending
 
-theorem Rel.drop_p {S n i st p B cnt s} (h : Rel S n i st p B cnt s) : S.drop p = Spec.encode st.rest := by
+theorem Rel.drop_p {S n i st p B cnt s} (h : Rel S n i st p B cnt s) :
+    S.drop p = Spec.encode st.rest ++ st.tail := by
   rw [h.src, h.pos, ← List.append_assoc, List.drop_left' (by simp)]
+
+/-- the position `Next` puts into an `InputError`: the runes flushed and pending so far -/
+theorem Rel.forwardPos_eq {S n i st p B cnt s} (hrel : Rel S n i st p B cnt s) :
+    i.forwardPos = Spec.posAfter (st.flushed ++ st.pending) := by
+  have hcols := hrel.cols
+  have hat := advance_track st.pending (Spec.advance (1, 1) st.flushed).1 (Spec.advance (1, 1) st.flushed).2 []
+  simp only [track, hrel.column] at hcols
+  rw [← hcols] at hat
+  simp only [List.length_nil, Nat.add_zero] at hat
+  simp only [Input.forwardPos, Spec.posAfter, advance_append, hrel.offset, hrel.sizes, hrel.line,
+    List.length_append, List.length_reverse, List.length_map, Pos.mk.injEq]
+  exact ⟨trivial, hat.2, hat.1⟩
+
+/-- is this output the report of an ill-formed sequence -/
+def Out.isInvalid : Out → Bool
+  | .invalid _ => true
+  | _ => false
 
 theorem next_refines {S : List UInt8} {n : Nat} {i : Input} {st : Spec.State} {p B cnt s : Nat}
     (hrel : Rel S n i st p B cnt s) (hnul : NulFree S)
     (hkeep : (Spec.encode (Spec.step st .next).1.pending).length ≤ n) :
-    ∃ i' p' B' cnt' s', i.step .next = .ok (i', (Spec.step st .next).2) ∧
-      Rel S n i' (Spec.step st .next).1 p' B' cnt' s' := by
+    ∃ i', i.step .next = .ok (i', (Spec.step st .next).2) ∧
+      ((Spec.step st .next).2.isInvalid = false →
+        ∃ p' B' cnt' s', Rel S n i' (Spec.step st .next).1 p' B' cnt' s') := by
   have hN := Next_spec hrel.inv hnul
   rw [hrel.drop_p] at hN
   cases hr : st.rest with
   | nil =>
     rw [hr] at hN
-    obtain ⟨i', B', cnt', s', hNext, _, _, hi⟩ := hN
-    have : i' = i := hi (by rw [hrel.drop_p, hr]; rfl)
-    subst this
-    refine ⟨i', p, B, cnt, s, ?_, ?_⟩
-    · simp only [step_next_of hNext, Spec.step, hr, hrel.tail, if_true]
-    · simp only [Spec.step, hr, hrel.tail, if_true]; exact hrel
+    simp only [Spec.encode, List.flatMap_nil, List.nil_append] at hN
+    rcases hrel.tail with ht | ⟨k, ht⟩
+    · -- end of input
+      rw [ht] at hN
+      obtain ⟨i', B', cnt', s', hNext, _, _, hi⟩ := hN
+      have : i' = i := hi (by rw [hrel.drop_p, hr, ht]; rfl)
+      subst this
+      refine ⟨i', ?_, fun _ => ⟨p, B, cnt, s, ?_⟩⟩
+      · simp only [step_next_of hNext, Spec.step, hr, ht, if_true]
+      · simp only [Spec.step, hr, ht, if_true]; exact hrel
+    · -- the ill-formed sequence is reached
+      have htne : st.tail ≠ [] := by intro h; rw [h] at ht; simp [decodeRune] at ht
+      rw [ht] at hN
+      obtain ⟨i', _, _, _, hNext, _, _⟩ := hN
+      refine ⟨i', ?_, ?_⟩
+      · simp only [step_next_of hNext, Spec.step, hr, htne, if_false, hrel.forwardPos_eq]
+      · intro h; simp [Spec.step, hr, htne, Out.isInvalid] at h
   | cons c r =>
-    rw [hr, encode_cons, decodeRune_encode] at hN
+    rw [hr, encode_cons, List.append_assoc, decodeRune_encode] at hN
     obtain ⟨i', B', cnt', s', hNext, hinv', _, hpush, hlex'⟩ := hN
     simp only [Spec.step, hr] at hkeep ⊢
     rw [encode_append, encode_singleton, List.length_append, length_encodeChar] at hkeep
     have hpos := hrel.pos
-    refine ⟨i', p + c.utf8Size, B', cnt', s', by rw [step_next_of hNext], ?_⟩
+    refine ⟨i', by rw [step_next_of hNext], fun _ => ⟨p + c.utf8Size, B', cnt', s', ?_⟩⟩
     have hnl : (c.utf8Size = 1 ∧ c.toNat = 10) ↔ c = '\n' := nl_iff c
     have hcols := hrel.cols
     exact {
@@ -179,7 +210,7 @@ theorem retract_refines {S : List UInt8} {n : Nat} {i : Input} {st : Spec.State}
     rw [hstep]
     refine ⟨j, p - c.utf8Size, B, cnt, s, by simp [Input.step, hR], ?_⟩
     -- the byte at the new position is the first byte of `c`
-    have hdrop : S.drop (p - c.utf8Size) = String.utf8EncodeChar c ++ Spec.encode st.rest := by
+    have hdrop : S.drop (p - c.utf8Size) = String.utf8EncodeChar c ++ (Spec.encode st.rest ++ st.tail) := by
       rw [hrel.src, hp, encode_append, encode_singleton]
       have : p - c.utf8Size = (Spec.encode st.flushed ++ Spec.encode init).length := by simp; omega
       rw [this, ← List.append_assoc, ← List.append_assoc, List.append_assoc _ (String.utf8EncodeChar c),
